@@ -51,6 +51,18 @@ prop("C18", "exploration",
      [{"test": "TestC18", "quick": {"checks": 2500, "shards": 4, "timeout": 600},
        "thorough": {"checks": 25000, "shards": 16, "timeout": 3000}}])
 
+prop("C15", "exploration",
+     "cases = Cancun scenarios from two generators: (1) scripted contracts over TSTORE/TLOAD/MCOPY with calls of all "
+     "four kinds between them, re-entrancy and failing frames; (2) generated programs with TLOAD/TSTORE/MCOPY favoured and "
+     "boundary operands (overlap both ways, zero length, huge offsets). Every TLOAD result, TSTORE outcome and fee is "
+     "compared with an executable EIP-1153 model driven by the frame events (per storage address, restored on frame "
+     "failure, refused in static context, empty per transaction, fee 100); every MCOPY is compared with an EIP-5656 "
+     "model (memmove on zero-extended memory, new size, 3+3*words+expansion gas, unpayable => failure); the same scenario "
+     "re-run on a generated pre-Cancun fork must raise invalid opcode at each of the three bytes. Non-trivial = an "
+     "overlapping, memory-expanding MCOPY or a TLOAD of a key restored by a failed frame.",
+     [{"test": "TestC15", "quick": {"checks": 4000, "shards": 2, "timeout": 600},
+       "thorough": {"checks": 40000, "shards": 16, "timeout": 3000}}])
+
 # ---------------------------------------------------------------------------
 # Text for MANIFEST.json (gen_manifest.py)
 
@@ -75,6 +87,16 @@ MANIFEST_TEXT = {
         "level_note": "Trusted: upstream core/vm as oracle; the recorder copies (gas, cost) at CaptureState/CaptureFault, "
                       "CaptureEnter/Exit, CaptureStart/End.",
         "technique": "property-based differential testing of step-level gas with generated gas-limit sweeps (rapid)",
+    },
+    "C15": {
+        "level_text": "Model-based property testing: executable reference models of EIP-1153 and EIP-5656 (written from the "
+                      "EIPs) are compared with every TLOAD/TSTORE/MCOPY the generated programs execute, observed through the "
+                      "debug-tracer stream (stack, memory before/after, cost). No upstream differential: go-ethereum v1.12.0 "
+                      "has no MCOPY and places EIP-1153 at other opcode bytes.",
+        "design_ref": "DESIGN.md section 4, C15",
+        "level_note": "Trusted: the two small models in harness/c15_test.go, the recorder. Memory contents above 64 KiB are "
+                      "not compared (counted).",
+        "technique": "model-based property testing against executable EIP models (rapid)",
     },
     "C18": {
         "level_text": "Differential property-based testing of the complete debug-tracer callback stream and of six inherited "
